@@ -1,5 +1,155 @@
+import Agd.Model.Filter
 import Agd.Driver.Util
-/-! Line-protocol driver for the C02 model (stub: not built yet). -/
+/-! Line-protocol driver for the C02 model (rule precedence, response filtering, blocked shape). -/
 namespace Agd.Driver.C02
-def main : IO Unit := Agd.Driver.loop (fun (s : Unit) _ => (s, "bad-op")) ()
+open Agd.Filter Agd.Driver
+
+structure S where
+  lists : List (String × List Rule) := []
+  sb : HashFilter := { hosts := [], repl := [] }
+  ad : HashFilter := { hosts := [], repl := [] }
+  nr : HashFilter := { hosts := [], repl := [] }
+  prof : Cfg := {}
+  grp : Cfg := {}
+  sw : Switches := { hasProfile := true, profOn := true, devOn := true }
+  mode : Mode := .nullIP
+  ttl : Nat := 10
+  ups : List ((Host × QType) × Msg) := []
+
+def host! (s : String) : Host := if s == "-" || s == "" then [] else s.splitOn "."
+def showHost (h : Host) : String := if h.isEmpty then "-" else ".".intercalate h
+def csv (s : String) : List String := if s == "-" || s == "" then [] else s.splitOn ","
+
+def parseSel (s : String) : TypeSel :=
+  if s.startsWith "=" then .only (nat! (s.drop 1).toString)
+  else if s.startsWith "~" then .except (nat! (s.drop 1).toString)
+  else .any
+
+def parseRule (tok : String) : Option Rule :=
+  match tok.splitOn "|" with
+  | ["b", d, t] => some (.net (host! d) false (parseSel t))
+  | ["a", d, t] => some (.net (host! d) true (parseSel t))
+  | ["r4", d, v] => some (.rewrite (host! d) (.ip4 v))
+  | ["r6", d, v] => some (.rewrite (host! d) (.ip6 v))
+  | ["rc", d, t] => some (.rewrite (host! d) (.cname (host! t)))
+  | ["rr", d, n] => some (.rewrite (host! d) (.rcode (nat! n)))
+  | ["h4", d] => some (.hosts false (host! d))
+  | ["h6", d] => some (.hosts true (host! d))
+  | _ => none
+
+def showId : ListId → String
+  | .custom => "custom"
+  | .shared n => s!"l{n}"
+  | .svc n => s!"s{n}"
+  | .safeBrowsing => "sb"
+  | .adult => "adult"
+  | .genSS => "gss"
+  | .ytSS => "yss"
+  | .newReg => "nrd"
+
+def showV : Verdict → String
+  | .none => "none"
+  | .allowed l => s!"allow {showId l}"
+  | .blocked l => s!"block {showId l}"
+  | .modReq l t => s!"modreq {showId l} {showHost t}"
+  | .modResp l rc vals => s!"modresp {showId l} {rc} {if vals.isEmpty then "-" else ",".intercalate vals}"
+
+def showRR (r : RR) : String :=
+  s!"{r.typ}:{if r.up then "^" else showHost r.name}:{r.val}:{r.ttl}:{if r.up then "u" else "s"}"
+
+def showMsg (m : Msg) : String :=
+  let a := if m.ans.isEmpty then "-" else ",".intercalate (m.ans.map showRR)
+  let soa := match m.soa with | some t => toString t | none => "-"
+  s!"{m.rcode} {a} {soa} {m.upNs}"
+
+def lookupList (s : S) (name : String) : List Rule := (s.lists.lookup name).getD []
+
+def idx (name : String) : Nat := nat! (name.drop 1).toString
+
+def mkCfg (s : S) (custom lists svcs sb ad g y nr : String) : Cfg :=
+  { custom := if custom == "-" then none else some (lookupList s custom)
+    lists := (csv lists).map fun n => (idx n, lookupList s n)
+    svcs := (csv svcs).map fun n => (idx n, lookupList s n)
+    sb := if bool! sb then some s.sb else none
+    adult := if bool! ad then some s.ad else none
+    genSS := if bool! g then some (lookupList s "g") else none
+    ytSS := if bool! y then some (lookupList s "y") else none
+    newReg := if bool! nr then some s.nr else none }
+
+/-- Distinct early-exit candidates among the matching rewrites of one list: more than one means the
+result depends on the engine's match order, which the model does not fix. -/
+def ambigRules (rs : List Rule) (host : Host) : Bool :=
+  let ts := (rewriteHits rs host).filter fun
+    | .cname _ => true
+    | .rcode _ => true
+    | _ => false
+  ts.eraseDups.length > 1
+
+def ambigCfg (c : Cfg) (host : Host) : Bool :=
+  c.rewriteSources.any (fun p => ambigRules p.2 host) ||
+  (match c.genSS with | some rs => ambigRules rs host | none => false) ||
+  (match c.ytSS with | some rs => ambigRules rs host | none => false)
+
+def parseIPs (s : String) : List (Bool × String) :=
+  (csv s).map fun v => (!(v.contains ':'), v)
+
+def parseRRs (name : Host) (s : String) : List RR :=
+  (csv s).filterMap fun tok =>
+    match tok.splitOn "/" with
+    | [t, v, ttl] => some { name := name, typ := nat! t, val := v, ttl := nat! ttl, up := true }
+    | _ => none
+
+def parseAns (s : String) : List Ans :=
+  (csv s).map fun tok =>
+    match tok.splitOn "/" with
+    | ["1", v] => .a (host! v)
+    | ["28", v] => .aaaa (host! v)
+    | ["5", v] => .cname (host! v)
+    | _ => .other
+
+def upstreamOf (s : S) (h : Host) (qt : QType) : Msg :=
+  (s.ups.lookup (h, qt)).getD { rcode := 0, ans := [], soa := none }
+
+def pick (s : S) (w : String) : Cfg := if w == "p" then s.prof else s.grp
+
+def step (s : S) : List String → S × String
+  | ["reset"] => ({}, "ok")
+  | "list" :: name :: toks =>
+    ({ s with lists := (name, toks.filterMap parseRule) :: s.lists.filter (·.1 != name) }, "ok")
+  | ["hp", which, repl, hosts] =>
+    let f : HashFilter := { hosts := (csv hosts).map host!, repl := host! repl }
+    (match which with
+     | "sb" => { s with sb := f }
+     | "ad" => { s with ad := f }
+     | _ => { s with nr := f }, "ok")
+  | ["cfg", w, custom, lists, svcs, sb, ad, g, y, nr] =>
+    let c := mkCfg s custom lists svcs sb ad g y nr
+    (if w == "p" then { s with prof := c } else { s with grp := c }, "ok")
+  | ["sw", a, b, c] => ({ s with sw := { hasProfile := bool! a, profOn := bool! b, devOn := bool! c } }, "ok")
+  | ["mode", m, ttl, v4, v6] =>
+    let md : Mode := match m with
+      | "null" => .nullIP
+      | "nx" => .nxdomain
+      | "ref" => .refused
+      | _ => .customIP (parseIPs v4) (parseIPs v6)
+    ({ s with mode := md, ttl := nat! ttl }, "ok")
+  | ["up", h, qt, rc, rrs, ns] =>
+    let k := (host! h, nat! qt)
+    let m : Msg := { rcode := nat! rc, ans := parseRRs (host! h) rrs, soa := none, upNs := nat! ns }
+    ({ s with ups := (k, m) :: s.ups.filter (·.1 != k) }, "ok")
+  | ["req", w, h, qt] =>
+    let c := pick s w
+    (s, showV (filterRequest c (host! h) (nat! qt)) ++ (if ambigCfg c (host! h) then " ambig" else ""))
+  | ["resp", w, answers] => (s, showV (filterResponse (pick s w) (parseAns answers)))
+  | ["mw", h, qt] =>
+    let e : Env := { sw := s.sw, prof := s.prof, grp := s.grp, mode := s.mode, ttl := s.ttl,
+                     upstream := upstreamOf s }
+    let amb := match selectFilter s.sw s.prof s.grp with
+      | some c => ambigCfg c (host! h)
+      | none => false
+    (s, showMsg (serve e (host! h) (nat! qt)) ++ (if amb then " ambig" else ""))
+  | _ => (s, "bad-op")
+
+def main : IO Unit := loop step {}
+
 end Agd.Driver.C02
